@@ -113,6 +113,37 @@ def run(case):
     case.check(np.allclose(gram, np.eye(3), atol=1e-9), "axes not orthonormal")
     case.check(np.allclose(zz, -np.cross(xx, yy), atol=1e-9), "axes not right-handed in z,y,x convention")
 
+    # ---- random motions: rigid in the same sense (translate_random moves every molecule by a world vector no longer
+    #      than max_distance and keeps orientations and features; rotate_random composes a rotation on the left and keeps
+    #      positions; from_random keeps positions); the same seed gives the same result, copy semantics as elsewhere
+    rng2 = gen.rng_for(p["iseed"], "c11-rand")
+    dmax = float(rng2.choice([0.0, 0.3, 2.5, 40.0]))
+    sd = int(rng2.integers(0, 1000))
+    src = Molecules(pos.copy(), R)
+    tr_ = src.translate_random(dmax, seed=sd)
+    dist = np.linalg.norm(tr_.pos.astype(float) - pos.astype(float), axis=1)
+    case.check(float(dist.max()) <= dmax * (1 + 1e-5) + 1e-4, "translate_random moved a molecule farther than max_distance", None,
+               max_distance=dmax, moved=float(dist.max()))
+    case.check(_ang(tr_.rotator, R) <= ANG, "translate_random changed orientations")
+    case.check(np.array_equal(src.pos, pos), "translate_random(copy=True) modified the receiver")
+    case.check(np.array_equal(src.translate_random(dmax, seed=sd).pos, tr_.pos), "translate_random: same seed, different result")
+    if dmax >= 2.5 and N >= 8:
+        case.check(float(dist.max()) > 0.2 * dmax and float(np.ptp(tr_.pos - pos, axis=0).min()) > 0,
+                   "translate_random does not spread the molecules within max_distance (all shifts equal or tiny)", None,
+                   max_distance=dmax, moved=float(dist.max()))
+    rr_ = src.rotate_random(seed=sd)
+    case.check(np.array_equal(rr_.pos, pos), "rotate_random changed positions")
+    # (which rotations are drawn is the implementation's business: only determinism and a real change are judged)
+    case.check(_ang(src.rotate_random(seed=sd).rotator, rr_.rotator) <= ANG, "rotate_random: same seed, different result")
+    case.check(_ang(rr_.rotator, R) > 1e-3, "rotate_random left every orientation unchanged")
+    case.check(_ang(src.rotator, R) <= ANG, "rotate_random(copy=True) modified the receiver")
+    fr_ = Molecules.from_random(pos, seed=sd)
+    case.check(np.array_equal(fr_.pos, pos) and _ang(fr_.rotator, Molecules.from_random(pos, seed=sd).rotator) <= ANG
+               and len(fr_) == N, "from_random: positions changed or the same seed gives other orientations")
+    m_inpl = Molecules(pos.copy(), R)
+    r_inpl = m_inpl.translate_random(dmax, seed=sd, copy=False)
+    case.check(r_inpl is m_inpl and np.array_equal(m_inpl.pos, tr_.pos), "translate_random(copy=False) must mutate and return self")
+
     # ---- world rotation, internal rotation, translations, copy semantics
     Q = gen.random_rotation(rng) if rng.random() < 0.7 else gen.special_rotations()[int(rng.integers(0, 10))]
     before_pos, before_q = mole.pos.copy(), mole.quaternion().copy()
